@@ -42,6 +42,9 @@ func tagLiveness(e *env.Env, v int) {
 		return
 	}
 	// the validator's weighted share of the asset rounds to zero: AddAssetsToRewardPool divides by it
+	if asset.TotalTokens.IsZero() || vt.IsZero() {
+		return // nothing staked (there): reward settlement skips the asset
+	}
 	if asset.RewardWeight.Mul(vt).QuoInt(asset.TotalTokens).IsZero() {
 		nd.Tag("zero-staked-reward-weight")
 	}
